@@ -391,7 +391,7 @@ def larger_dies(chunk, replay=None):
     import os
     import random
     from frame.netlist.netlist import Netlist
-    from frame.utils.utils import write_yaml
+    from json import dumps as write_yaml        # input documents are written WITHOUT the library (JSON is a subset of YAML): the harness must not depend on the code under test
     tier = os.environ.get("VERIF_TIER", "quick")
     rng = random.Random(1100 + chunk + 100 * int(os.environ.get("VERIF_SEED", "0") or 0))
     n_des = 40 if tier != "thorough" else 600
